@@ -458,16 +458,34 @@ fn power_levels(cx: &Ctx<'_>, e: &Ev, sender_level: i64) -> R {
         if old == new {
             continue;
         }
-        if old.is_none() || new.is_none() {
-            // an added or removed field: whether the absent side counts with its default value is
-            // not spelled out
-            cx.silent.set(true);
-        }
-        if old.unwrap_or(default) > sender_level {
-            return Err("10.4.1 current value above sender's level");
-        }
-        if new.unwrap_or(default) > sender_level {
-            return Err("10.4.2 new value above sender's level");
+        match (old, new) {
+            // removed: the current value is explicit and must not exceed the sender's level;
+            // whether the field's default then counts as the "new value" is not spelled out
+            (Some(o), None) => {
+                if o > sender_level {
+                    return Err("10.4.1 current value (of a removed field) above sender's level");
+                }
+                if default > sender_level {
+                    cx.silent.set(true);
+                }
+            }
+            // added: the new value is explicit; whether the default counts as "current value" is not
+            (None, Some(n)) => {
+                if n > sender_level {
+                    return Err("10.4.2 new value (of an added field) above sender's level");
+                }
+                if default > sender_level {
+                    cx.silent.set(true);
+                }
+            }
+            _ => {
+                if old.unwrap_or(default) > sender_level {
+                    return Err("10.4.1 current value above sender's level");
+                }
+                if new.unwrap_or(default) > sender_level {
+                    return Err("10.4.2 new value above sender's level");
+                }
+            }
         }
     }
     // 10.5 events (and notifications from v6)
@@ -529,11 +547,9 @@ pub fn ref_selection(v: u8, e: &Ev) -> Option<BTreeSet<(String, String)>> {
         let target = e.state_key.as_deref()?;
         s.insert(k("m.room.member", target));
         let membership = e.content.get("membership")?.as_str()?;
-        match membership {
-            "join" | "invite" | "leave" | "ban" => {}
-            "knock" if v >= 7 => {}
-            _ => return None,
-        }
+        // the selection algorithm (server-server specification) is written once for all room
+        // versions: it names the join rules for join / invite / knock whether or not the room
+        // version's authorization rules know the membership, and nothing extra for any other string
         if matches!(membership, "join" | "invite" | "knock") {
             s.insert(k("m.room.join_rules", ""));
         }
